@@ -565,6 +565,26 @@ func check(c Case) error {
 			return vk.Errf("%s: delivered entry %d has %s", what, i, diff)
 		}
 	}
+	// the entries that were found as written are kept by the consumer while other streams are parsed (vk.Hold)
+	{
+		var kept []uniprot.Entry
+		var specs []EntrySpec
+		for i, e := range o.entries {
+			if i < len(c.Entries) && sameEntry(e, c.Entries[i]) == "" {
+				kept, specs = append(kept, e), append(specs, c.Entries[i])
+			}
+		}
+		if len(kept) > 0 {
+			vk.Hold(fmt.Sprintf("%d entries delivered by the Uniprot parser", len(kept)), func() error {
+				for i := range kept {
+					if diff := sameEntry(kept[i], specs[i]); diff != "" {
+						return vk.Errf("entry %d now has %s", i, diff)
+					}
+				}
+				return nil
+			})
+		}
+	}
 	// a damaged document read a second time in the same process, through the other route (the file route
 	// through gzip if the first reading was from memory, and the other way round): the same document gets
 	// the same verdict - as many entries, and an error reported or not
